@@ -99,7 +99,17 @@ class Unspecified(Exception):
     pass
 
 
-_COMP = re.compile(r'^([^\[\]]+)\[\s*(-?\d+)\s*\]$')
+_COMP = re.compile(r'^([^\[\]]+)\[(.*)\]$')
+
+
+def _index_value(text):
+    text = text.strip()
+    if re.match(r'^-?\d+$', text):
+        return int(text)
+    # only the generator's own expression forms reach this point (INDEX_FORMS): arithmetic on integer literals
+    if not re.match(r'^[\d\s+\-()\[\],.real]+$', text):
+        raise common.HarnessError('generator produced an index expression the model cannot read: %r' % text)
+    return int(eval(text, {'__builtins__': {}}, {}))
 
 
 def parse_path(path):
@@ -138,7 +148,7 @@ def parse_path(path):
     for c in comps:
         m = _COMP.match(c)
         if m:
-            out.append((m.group(1), int(m.group(2))))
+            out.append((m.group(1), _index_value(m.group(2))))
         else:
             if '[' in c or ']' in c:
                 raise common.HarnessError('generator produced a malformed component %r in %r' % (c, path))
@@ -299,8 +309,13 @@ def dicts_in_lists(node, inside=False, out=None):
     return out
 
 
+INDEX_FORMS = {False: '%s[%d]', True: '%s[%2d]', 2: '%s[%d+0]', 3: '%s[(%d)]', 4: '%s[[(%d).real][0]]', 5: '%s[[7,(%d)][1]]'}
+# (the class documents that the index is an expression evaluated safely, e.g. 'a[a[0].b-1].b'; forms 4 and 5 put a dot and
+#  further brackets inside the index brackets, which the path splitter has to keep together)
+
+
 def render(comps, pad=False):
-    return '.'.join(n if i is None else ('%s[%2d]' % (n, i) if pad else '%s[%d]' % (n, i)) for n, i in comps)
+    return '.'.join(n if i is None else INDEX_FORMS[pad] % (n, i) for n, i in comps)
 
 
 # ------------------------------------------------------------------------------------------------
@@ -441,7 +456,10 @@ def attempt(fn):
 
 def render_path(ps, comps):
     """Decorate comps per path spec: leading dots, '..' detours, padded indices, trailing dots."""
-    pad = bool(ps.get('pad'))
+    pad = ps.get('pad') or False
+    if pad == 4 and (ps.get('det') or ps.get('trail') or ps.get('lead', 0) > 1):
+        pad = 5         # '..' back-tracking is resolved textually before the path is split: a dot inside index brackets is only
+        #                 documented (and generated) in paths without '..' runs
     texts = [render([c], pad) for c in comps]
     dets = {}
     for at, junk, extra in ps.get('det', ()):
@@ -858,6 +876,15 @@ class Run(object):
         else:
             if kind == 'ok' and got is not SENT:
                 self.fail('pop-succeeds-on-absent-path', observed=to_plain(got), expected='KeyError or the default')
+            if default and kind != 'ok' and comps and comps[-1][1] is None and not indexed:
+                # only the leaf is absent (every level above it exists): like any mapping, pop(path, default) returns the default
+                try:
+                    par = m_parent(model, comps, [])
+                    leaf_only = isinstance(par, dict) and comps[-1][0] not in par
+                except (Refuse, Unspecified):
+                    leaf_only = False
+                if leaf_only:
+                    self.fail('pop-with-default-raises-although-only-the-leaf-is-absent', observed=repr(got)[:200], expected='the default')
             self.count('pop:absent:' + ('default_returned' if kind == 'ok' else 'raised_despite_default' if default else 'raised'))
 
     def op_setdefault(self, op, world, real, model, comps, path, trail):
@@ -1165,7 +1192,7 @@ def pathspecs(draw, reserved_final=False):
         if decorate >= 6:
             ps['det'] = draw(st.lists(detour, min_size=1, max_size=2))
         ps['trail'] = draw(st.sampled_from([0] * 14 + [2, 3]))
-        ps['pad'] = draw(st.sampled_from([False, False, False, True]))
+        ps['pad'] = draw(st.sampled_from([False, False, False, True, 2, 3, 4, 4, 5]))
     return ps
 
 
